@@ -41,7 +41,11 @@ Record switches := mkSwitches {
   sw_cont_check_first : bool;          (* continue_internal tests can_continue before counters/flags *)
   sw_path_validated_first : bool;      (* choose_path_string resolves the path before modifying state *)
   sw_eval_args_first : bool;           (* evaluate_function validates arguments before modifying state *)
-  sw_ext_guard_fixed : bool            (* string-evaluation guard refuses the NOT-lookahead-safe function *)
+  sw_ext_guard_fixed : bool;           (* string-evaluation guard refuses the NOT-lookahead-safe function *)
+  sw_guard_setvar : bool;              (* set_variable has the if_async_we_cant guard *)
+  sw_guard_remove_flow : bool;         (* remove_flow has the guard *)
+  sw_guard_switch_default : bool;      (* switch_to_default_flow is ignored while async *)
+  sw_guard_load : bool                 (* load_state has the guard *)
 }.
 
 (* i32 addition as the seed computations of control_logic.rs / story/mod.rs do it *)
